@@ -323,11 +323,18 @@ def r5_batch_labels(ctx):
     else:
         ctx.finding(f, None, 'batch labels are not collected from '
                     'evolution.label', key='no-batch-labels')
-    from ..util import unit_walk, param_argument
+    from ..util import unit_walk, param_argument, through_copies
 
     def trace(expr, fn):
         """Follow a helper parameter back to the argument at the call site
-        in _build_batches."""
+        in _build_batches (and single-assignment local copies)."""
+        expr = through_copies(fn, expr)
+        if isinstance(expr, ast.Attribute) and isinstance(expr.value,
+                                                          ast.Name):
+            base = through_copies(fn, expr.value)
+            if base is not expr.value and isinstance(base, ast.Name):
+                expr = ast.Attribute(value=base, attr=expr.attr,
+                                     ctx=ast.Load())
         if fn is not f and isinstance(expr, ast.Name) and \
                 expr.id in fn.params:
             args = param_argument(ctx, f, fn, expr.id)
